@@ -159,6 +159,15 @@ impl<'a> G<'a> {
         readable.extend(globals.iter().cloned());
         let mut assigned_locals: Vec<Name> = Vec::new();
         let mut out = Vec::new();
+        if self.rng.chance(1, 6) {
+            // a pronoun before the body names anything: the variable the caller named last
+            let it = Expr::Prim(Prim::Ident(Ident::Pronoun));
+            out.push(match self.rng.below(3) {
+                0 => say(it),
+                1 => say(bin(BinOp::Plus, it, num(1.0))),
+                _ => Stmt::If { cond: bin(BinOp::Eq, it, Expr::Prim(Prim::Lit(Lit::Null))), then: vec![say(strlit("nothing"))], els: None },
+            });
+        }
         let n = self.rng.range(1, 6);
         for _ in 0..n {
             let mut rd = readable.clone();
@@ -221,7 +230,15 @@ impl<'a> G<'a> {
                     if let Some(l) = locals.last().cloned() {
                         if !assigned_locals.iter().any(|x| x.key() == l.key()) {
                             let m = self.mark();
-                            out.push(Stmt::If { cond: Expr::Prim(Prim::Lit(Lit::Bool(true))), then: vec![put(num(m), &l), say(var(&l))], els: None });
+                            if self.rng.coin() {
+                                out.push(Stmt::If { cond: Expr::Prim(Prim::Lit(Lit::Bool(true))), then: vec![put(num(m), &l), say(var(&l))], els: None });
+                            } else {
+                                // in the else block of an if inside a loop (an if/else directly in a function body
+                                // would have to be its last statement)
+                                let m2 = self.mark();
+                                let inner = Stmt::If { cond: Expr::Prim(Prim::Lit(Lit::Bool(false))), then: vec![say(num(m2))], els: Some(vec![put(num(m), &l), say(var(&l))]) };
+                                out.push(Stmt::While { cond: Expr::Prim(Prim::Lit(Lit::Bool(true))), body: vec![inner, Stmt::Break] });
+                            }
                         }
                     }
                 }
@@ -348,8 +365,13 @@ pub fn program(rng: &mut Rng) -> (Program, &'static str) {
                 let m = g.mark();
                 let t = g.rng.pick(&globals).clone();
                 let body = vec![put(num(m), &l), say(var(&l)), put(var(&l), &t)];
-                if g.rng.coin() {
+                let k = g.rng.below(3);
+                if k == 0 {
                     top.push(Stmt::If { cond: Expr::Prim(Prim::Lit(Lit::Bool(true))), then: body, els: None });
+                } else if k == 1 {
+                    // the local lives in the ELSE block
+                    let m2 = g.mark();
+                    top.push(Stmt::If { cond: Expr::Prim(Prim::Lit(Lit::Bool(false))), then: vec![say(num(m2))], els: Some(body) });
                 } else {
                     top.push(Stmt::Until { cond: bin(BinOp::Eq, var(&t), num(m)), body });
                 }
@@ -430,7 +452,15 @@ pub fn program(rng: &mut Rng) -> (Program, &'static str) {
         }
         4 => {
             let t = g.rng.pick(&globals).clone();
-            top.push(Stmt::If { cond: Expr::Prim(Prim::Lit(Lit::Bool(true))), then: vec![say(var(&t))], els: None });
+            match g.rng.below(3) {
+                0 => top.push(Stmt::If { cond: Expr::Prim(Prim::Lit(Lit::Bool(true))), then: vec![say(var(&t))], els: None }),
+                1 => top.push(Stmt::If { cond: Expr::Prim(Prim::Lit(Lit::Bool(false))), then: vec![say(num(0.0))], els: Some(vec![say(var(&t))]) }),
+                _ => {
+                    // an if whose branch is not taken is a block that has ended, too
+                    top.push(say(var(&t)));
+                    top.push(Stmt::If { cond: Expr::Prim(Prim::Lit(Lit::Bool(false))), then: vec![say(num(0.0))], els: None });
+                }
+            }
             top.push(say(Expr::Prim(Prim::Ident(Ident::Pronoun))));
             "pronoun_probe_after_block"
         }
@@ -463,6 +493,111 @@ pub fn program(rng: &mut Rng) -> (Program, &'static str) {
     (Program::single(top), probe)
 }
 
+/// Programs in which functions, parameters, globals and function-local names all come from one pool of
+/// four names, so that every kind of shadowing happens: a parameter named like a global function (calling
+/// it is a call of a non-function), a nested definition hiding a global function of another arity, a
+/// parameter hiding a global variable, the hidden thing being visible again after the call.
+pub fn collision_program(rng: &mut Rng) -> Program {
+    const POOL: &[&str] = &["Alpha", "Bravo", "Carol", "Delta"];
+    /// arity of the global function of that name (0 = a global variable)
+    struct G {
+        arity: [usize; 4],
+    }
+    fn pick(rng: &mut Rng) -> usize {
+        rng.below(4)
+    }
+    fn nm(i: usize) -> Name {
+        simple(POOL[i])
+    }
+    fn arg(g: &G, rng: &mut Rng, depth: usize) -> Expr {
+        match rng.below(if depth == 0 { 5 } else { 3 }) {
+            0 | 1 => num(rng.range(1, 9) as f64),
+            2 => var(&nm(pick(rng))),
+            _ => Expr::Prim(call(g, rng, depth + 1)),
+        }
+    }
+    fn call(g: &G, rng: &mut Rng, depth: usize) -> Prim {
+        let i = pick(rng);
+        // mostly the arity of the global function of that name (what a shadowing parameter or a nested
+        // definition then turns into a non-function call or an arity error)
+        let n = if g.arity[i] > 0 && !rng.chance(1, 6) { g.arity[i] } else { rng.range(1, 2) };
+        Prim::Call(nm(i), (0..n).map(|_| arg(g, rng, depth)).collect())
+    }
+    fn body(g: &G, rng: &mut Rng, nest: usize) -> Vec<Stmt> {
+        let mut ss = Vec::new();
+        for _ in 0..rng.range(0, 3) {
+            match rng.below(7) {
+                0 | 1 => ss.push(say(var(&nm(pick(rng))))),
+                2 => ss.push(say(Expr::Prim(call(g, rng, 1)))),
+                3 => {
+                    let t = nm(pick(rng));
+                    ss.push(put(arg(g, rng, 1), &t));
+                }
+                4 if nest < 2 => {
+                    let name = pick(rng);
+                    ss.push(def(g, rng, name, nest + 1));
+                }
+                4 => ss.push(say(num(0.0))),
+                5 => ss.push(Stmt::Inc { dest: Ident::Name(nm(pick(rng))), n: 1 }),
+                _ => {
+                    if let Prim::Call(name, args) = call(g, rng, 1) {
+                        ss.push(Stmt::Call { name, args });
+                    }
+                }
+            }
+        }
+        ss.push(Stmt::Return { value: bin(BinOp::Plus, arg(g, rng, 1), num(rng.range(10, 90) as f64)) });
+        ss
+    }
+    fn def(g: &G, rng: &mut Rng, name: usize, nest: usize) -> Stmt {
+        let mut params = vec![nm(pick(rng))];
+        let want = if nest == 0 { g.arity[name].max(1) } else { rng.range(1, 2) };
+        while params.len() < want {
+            let q = nm(pick(rng));
+            if !params.contains(&q) {
+                params.push(q);
+            }
+        }
+        Stmt::Function { name: nm(name), params, body: body(g, rng, nest) }
+    }
+    let nfuncs = rng.range(1, 3);
+    let mut g = G { arity: [0; 4] };
+    let mut order = [0usize, 1, 2, 3];
+    for i in (1..4).rev() {
+        order.swap(i, rng.below(i + 1));
+    }
+    for k in 0..nfuncs {
+        g.arity[order[k]] = rng.range(1, 2);
+    }
+    let mut top = Vec::new();
+    // globals first (so that function bodies can see them), then the functions, in pool order
+    for k in nfuncs..4 {
+        if !rng.chance(1, 5) {
+            top.push(put(num((k * 100 + rng.range(1, 9)) as f64), &nm(order[k])));
+        }
+    }
+    for k in 0..nfuncs {
+        top.push(def(&g, rng, order[k], 0));
+    }
+    for _ in 0..rng.range(2, 6) {
+        match rng.below(6) {
+            0 => {
+                let t = nm(order[rng.range(nfuncs.min(3), 3)]);
+                top.push(put(num(rng.range(1, 9) as f64), &t));
+            }
+            1 => top.push(say(var(&nm(order[rng.range(nfuncs.min(3), 3)])))),
+            _ => {
+                // a call of one of the functions with the right number of arguments
+                let f = order[rng.below(nfuncs)];
+                let args = (0..g.arity[f]).map(|_| arg(&g, rng, 0)).collect();
+                top.push(say(Expr::Prim(Prim::Call(nm(f), args))));
+            }
+        }
+    }
+    top.push(say(num(99.0)));
+    Program::single(top)
+}
+
 pub fn run(ctx: &mut Ctx) {
     ctx.log_events = true;
     if ctx.miri {
@@ -472,6 +607,21 @@ pub fn run(ctx: &mut Ctx) {
         });
         return;
     }
+    let n = ctx.size(30_000, 1_000_000);
+    ctx.cases("name_collisions", n, |ctx, rng, _| {
+        let tree = collision_program(rng);
+        let c = exec_compare(ctx, "collision", &tree, b"", &Spelling::canonical(), rng);
+        ctx.count("programs.name_collisions");
+        if let (Some(m), Verdict::Agree) = (&c.model, &c.verdict) {
+            ctx.count("name_collision_programs_decided");
+            if let RefOutcome::Error(k) = &m.outcome {
+                ctx.count(&format!("name_collision_error.{}", k));
+            }
+            if m.stats.get("calls").copied().unwrap_or(0) >= 1 {
+                ctx.nontrivial(hash_str(&c.text));
+            }
+        }
+    });
     let n = ctx.size(60_000, 2_000_000);
     ctx.cases("programs", n, |ctx, rng, _| {
         let (tree, probe) = program(rng);
